@@ -207,13 +207,37 @@ func (r *Run) runScript(pi int, sc *plan.Script) {
 			r.K.After(usd(op.D), simrt.ClassClient, [3]uint64{uint64(sc.ID), uint64(pi), uint64(i)}, "op-start", func() { close(ch) })
 			<-ch
 		}
+		eff := sc
+		if op.Tag == "emb" || op.Tag == "cc" || op.Tag == "raw" {
+			// per-op entry point: a client of that kind (and member) private to this script
+			code := map[string]int{"emb": 1, "cc": 2, "raw": 3}[op.Tag]
+			m := op.M
+			if op.Tag == "cc" {
+				m = 0
+			}
+			eff = &plan.Script{ID: 1000 + sc.ID*100 + code*10 + m, Kind: op.Tag, M: m}
+		}
 		rec := plan.Rec{Phase: pi, Client: sc.ID, Idx: i, Op: op}
 		rec.Inv = r.K.Stamp()
 		rec.TInv = int64(r.K.Now())
-		r.doOp(sc, i, &op, &rec)
+		r.doOp(eff, i, &op, &rec)
 		rec.Ret = r.K.Stamp()
 		rec.TRet = int64(r.K.Now())
 		r.record(rec)
+		if r.P.Params["probe_after_each"] != 0 && op.Key != "" && !strings.HasPrefix(op.K, "ctl.") && op.K != "get" {
+			dmn := op.DM
+			if dmn == "" {
+				dmn = r.P.DMap
+			}
+			pr := plan.Rec{Phase: pi, Client: sc.ID, Idx: i, Op: plan.Op{K: "ctl.copies", Key: op.Key, DM: op.DM}}
+			pr.Info = fmt.Sprintf("%s via %s/m%d -> %q", op.K, eff.Kind, eff.M, rec.Err)
+			pr.Inv = r.K.Stamp()
+			pr.TInv = int64(r.K.Now())
+			pr.Copies = r.Copies(dmn, op.Key)
+			pr.Ret = r.K.Stamp()
+			pr.TRet = int64(r.K.Now())
+			r.record(pr)
+		}
 	}
 }
 
@@ -401,6 +425,13 @@ func (r *Run) doOp(sc *plan.Script, idx int, op *plan.Op, rec *plan.Rec) {
 }
 
 func fillGet(rec *plan.Rec, g *olric.GetResponse) {
+	defer func() {
+		// EmbeddedDMap.GetPut returns a non-nil response wrapping a nil entry when there was no old value
+		if r := recover(); r != nil {
+			rec.Has, rec.Val, rec.Info = false, "", "nil-entry-response"
+		}
+	}()
+	rec.TTL = g.TTL()
 	rec.Has = true
 	b, err := g.Byte()
 	if err != nil {
@@ -496,6 +527,11 @@ func (r *Run) doRaw(c *client, idx int, op *plan.Op, rec *plan.Rec) {
 	}
 	res, err := c.rdb.Do(ctx, args...).Result()
 	rec.Err = Classify(err)
+	if op.K == "getput" && rec.Err == plan.ENotFound {
+		// protocol: DM.GETPUT replies KEYNOTFOUND when there was no old value; the new value is stored
+		rec.Err = ""
+		return
+	}
 	if err != nil {
 		return
 	}
